@@ -15,7 +15,7 @@ FMT = '%Y-%m-%dT%H:%M:%S'
 def config(tier):
     return {
         'level': 'exploration',
-        'cases': 1500 if tier == 'quick' else 120000,
+        'cases': 7000 if tier == 'quick' else 120000,
         'budget_s': 45 if tier == 'quick' else 560,
         'floors': {'cases': 400, 'boundary_entries': 800, 'removed': 300,
                    'kept': 300, 'undated_kept': 50, 'no_days_runs': 40},
